@@ -36,8 +36,8 @@ PARENT = "ACRMBDWS"
 
 def bounds(tier):
     return {
-        "quick": {"L": 6, "depth": 2, "steps": [1, 2], "offsets": [0, 3], "impls": ["old", "new"], "aln_len": 4},
-        "thorough": {"L": 8, "depth": 3, "steps": [1, 2, 3], "offsets": [0, 3], "impls": ["old", "new"], "aln_len": 5},
+        "quick": {"L": 6, "depth": 2, "steps": [1, 2], "offsets": [0, 3], "impls": ["old", "new"], "aln_len": 4, "coll_len": 4},
+        "thorough": {"L": 8, "depth": 3, "steps": [1, 2, 3], "offsets": [0, 3], "impls": ["old", "new"], "aln_len": 5, "coll_len": 6},
     }[tier]
 
 
@@ -85,24 +85,28 @@ def feature_residues(parent, f, retained=None):
 
 # ----------------------------------------------------------------------------- view model (subset of C01's)
 class V:
-    __slots__ = ("idx", "rev", "stride")
+    __slots__ = ("idx", "rev", "stride", "mat")
 
-    def __init__(self, idx, rev=False, stride=1):
-        self.idx, self.rev, self.stride = tuple(idx), rev, stride
+    def __init__(self, idx, rev=False, stride=1, mat=""):
+        # mat: how the object this view hangs off was last materialised ("" = the annotated root, "copy sliced",
+        # "copy unsliced", "degap"): the model value is the same, the implementation object is not, so it is part of the state
+        self.idx, self.rev, self.stride, self.mat = tuple(idx), rev, stride, mat
 
     def key(self):
-        return (self.idx, self.rev, self.stride)
+        return (self.idx, self.rev, self.stride, self.mat)
 
     def apply(self, op):
         if op[0] == "slice":
             _, a, b, c = op
             idx = self.idx[a:b:c]
             cc = c or 1
-            return V(idx, self.rev ^ (cc < 0), self.stride * abs(cc) if idx else 1)
+            return V(idx, self.rev ^ (cc < 0), self.stride * abs(cc) if idx else 1, self.mat)
         if op[0] == "rc":
-            return V(self.idx[::-1], not self.rev, self.stride)
+            return V(self.idx[::-1], not self.rev, self.stride, self.mat)
         if op[0] == "copy":
-            return V(self.idx, self.rev, self.stride)
+            return V(self.idx, self.rev, self.stride, "copy sliced" if op[1] else "copy unsliced")
+        if op[0] == "degap":
+            return V(self.idx, self.rev, self.stride, "degap")
         raise ValueError(op)
 
     def string(self, parent):
@@ -117,6 +121,8 @@ def real_apply(seq, op):
         return seq.rc()
     if op[0] == "copy":
         return seq.copy(sliced=op[1])
+    if op[0] == "degap":
+        return seq.degap()
     raise ValueError(op)
 
 
@@ -130,6 +136,7 @@ def view_alphabet(v, steps):
     ops.append(("rc",))
     ops.append(("copy", True))
     ops.append(("copy", False))
+    ops.append(("degap",))
     return ops
 
 
@@ -186,7 +193,7 @@ def expected_names(v: V, feats, start, stop, partial):
 def check_view(seq, v: V, parent, feats, impl, attach, case, acc):
     L = len(v.idx)
     retained = set(v.idx)
-    flags = "reversed view" if v.rev else "forward view"
+    flags = ("reversed view" if v.rev else "forward view") + (f" after {v.mat}" if v.mat else "")
     windows = [(None, None)] + [(a, b) for a in range(0, L) for b in range(a + 1, L + 1)]
     if v.stride > 1:
         windows = [(None, None)]
@@ -332,6 +339,18 @@ def explore_alignment(spec, acc):
                                 w1 = want["s1"].replace("-", "")
                                 if g1 != w1:
                                     acc.fail(f"alignment feature slice: residues of the annotated row differ from the retained feature residues [{flags}; {strand} strand]", case, {"got": got, "want": want})
+                                # degapping the (sliced, reversed) alignment gives a collection whose sequences are views of the
+                                # annotated parents: the feature must still denote the same residues
+                                try:
+                                    dg = v.degap()
+                                    dfs = [f for f in dg.get_features(seqid="s1", biotype="gene", allow_partial=True)]
+                                    dgot = [str(f.get_slice()).replace("-", "").replace("?", "") for f in dfs]
+                                except Exception as ex:  # noqa: BLE001
+                                    acc.fail(f"degapped alignment: get_features / get_slice raised {type(ex).__name__} [{flags}]", case, {"error": str(ex)[:200]})
+                                    continue
+                                acc.outcome(("aln-degap", len(dfs)))
+                                if dgot != [w1]:
+                                    acc.fail(f"degapped alignment: feature slice differs from the retained feature residues [{flags}; {strand} strand]", case, {"got": dgot, "want": w1, "degapped": {n: str(x) for n, x in dg.to_dict().items()}})
         # ---- alignment-level features: every single column span
         for s in range(L):
             for e in range(s + 1, L + 1):
@@ -364,6 +383,111 @@ def explore_alignment(spec, acc):
     acc.sample({"alignment_length": L, "features": "every span on row s1 (both strands) and every column span on the alignment", "views": "every slice, rc"}, "aln")
 
 
+# ----------------------------------------------------------------------------- collections
+COLL_PARENTS = {"s1": "ACRMBDWS", "s2": "SWDBMRCA"}
+
+
+def explore_collection(spec, acc):
+    """features of the sequences of a SequenceCollection (old and new implementation), added through the collection or
+    held by an attached database that also has records of a sequence the collection does not contain; collection
+    histories (take_seqs, degap, rc, per-sequence slices through get_seq) x collection-level queries"""
+    from cogent3 import make_unaligned_seqs
+    from cogent3.core.annotation_db import BasicAnnotationDb
+
+    impl, L, attach = spec["impl"], spec["L"], spec["attach"]
+    new = impl == "new"
+    parents = {n: p[:L] for n, p in COLL_PARENTS.items()}
+    spans = [(s, e) for s in range(L) for e in range(s + 1, L + 1)]
+    hists = [[], [["take_seqs", ["s2", "s1"]]], [["take_seqs", ["s1"]]], [["take_seqs", ["s2"]]], [["degap"]], [["rc"]], [["rc"], ["degap"]],
+             [["take_seqs", ["s2", "s1"]], ["degap"]], [["degap"], ["take_seqs", ["s1"]]], [["rc"], ["rc"]]]
+    for (s, e), strand, other in itertools.product(spans, "+-", spans[:: max(1, len(spans) // 3)]):
+        feats = {"s1": {"spans": [(s, e)], "strand": strand}, "s2": {"spans": [other], "strand": "-" if strand == "+" else "+"}}
+        for hist in hists:
+            case = {"coll": impl, "L": L, "attach": attach, "features": {k: {"spans": [list(x) for x in v["spans"]], "strand": v["strand"]} for k, v in feats.items()}, "history": hist}
+            acc.case(None)
+            try:
+                if attach == "add_feature":
+                    coll = make_unaligned_seqs(parents, moltype="dna", new_type=new)
+                    for n, f in feats.items():
+                        coll.add_feature(seqid=n, biotype="gene", name=f"f_{n}", spans=[list(x) for x in f["spans"]], strand=f["strand"])
+                else:
+                    db = BasicAnnotationDb()
+                    for n, f in feats.items():
+                        db.add_feature(seqid=n, biotype="gene", name=f"f_{n}", spans=[list(x) for x in f["spans"]], strand=f["strand"])
+                    db.add_feature(seqid="s3", biotype="gene", name="f_s3", spans=[(0, 1)], strand="+")
+                    if new:
+                        coll = make_unaligned_seqs(parents, moltype="dna", new_type=True, annotation_db=db)
+                    else:
+                        coll = make_unaligned_seqs(parents, moltype="dna")
+                        coll.annotation_db = db
+                cur = coll
+                names = ["s1", "s2"]
+                dropped = False
+                for op in hist:
+                    if op[0] == "take_seqs":
+                        cur = cur.take_seqs(op[1])
+                        names = list(op[1])
+                    elif op[0] == "degap":
+                        cur = cur.degap()
+                        dropped = dropped or new  # documented / transitional: the new-style collection does not carry the db through degap
+                    elif op[0] == "rc":
+                        cur = cur.rc()
+                        dropped = dropped or new  # documented: "will break the relationship to an annotation_db"
+            except Exception as ex:  # noqa: BLE001
+                acc.fail(f"collection history raised {type(ex).__name__} [{impl} collection; {' > '.join(o[0] for o in hist) or 'no operation'}]", case, {"error": str(ex)[:200]})
+                continue
+            hkind = " > ".join(o[0] for o in hist) or "no operation"
+            for seqid in (None, "s1", "s2"):
+                if seqid is not None and seqid not in names:
+                    continue
+                kw = {"biotype": "gene", "allow_partial": True}
+                if seqid:
+                    kw["seqid"] = seqid
+                try:
+                    got = sorted((f.name, str(f.get_slice())) for f in cur.get_features(**kw))
+                except Exception as ex:  # noqa: BLE001
+                    acc.fail(f"collection get_features raised {type(ex).__name__} [{impl} collection; {attach}; {hkind}; seqid {'given' if seqid else 'not given'}]",
+                             dict(case, query=kw), {"error": str(ex)[:200]})
+                    acc.outcome(("coll-raise", type(ex).__name__))
+                    continue
+                acc.outcome(("coll", len(got)))
+                if dropped:
+                    # no database any more: nothing may be returned (and nothing wrong)
+                    want = []
+                    if got:
+                        want = sorted((f"f_{n}", feature_residues(parents[n], feats[n])) for n in names if seqid in (None, n))
+                else:
+                    want = sorted((f"f_{n}", feature_residues(parents[n], feats[n])) for n in names if seqid in (None, n))
+                if got != want:
+                    acc.fail(f"collection get_features differs from the features of its sequences [{impl} collection; {attach}; {hkind}; seqid {'given' if seqid else 'not given'}]",
+                             dict(case, query=kw), {"got": got, "want": want, "names": names})
+            # per-sequence views obtained from the collection: a slice of a member sequence
+            if dropped:
+                continue
+            for n in names:
+                for a in range(L):
+                    for b in range(a + 1, L + 1):
+                        acc.case(None)
+                        try:
+                            sq = cur.get_seq(n)
+                            view = sq[a:b]
+                            got = sorted((f.name, str(f.get_slice())) for f in view.get_features(biotype="gene", allow_partial=True))
+                        except Exception as ex:  # noqa: BLE001
+                            acc.fail(f"member sequence slice: get_features raised {type(ex).__name__} [{impl} collection; {attach}; {hkind}]", dict(case, member=n, slice=[a, b]), {"error": str(ex)[:200]})
+                            continue
+                        rev = sum(1 for o in hist if o[0] == "rc") % 2 == 1
+                        idx = list(range(L))[::-1][a:b] if rev else list(range(L))[a:b]
+                        f = feats[n]
+                        keep = set(idx)
+                        want_s = feature_residues(parents[n], f, keep)
+                        want = [(f"f_{n}", want_s)] if want_s else []
+                        got = [(x, y.replace("-", "").replace("?", "")) for x, y in got]
+                        if got != want:
+                            acc.fail(f"member sequence slice: features differ from the retained feature residues [{impl} collection; {attach}; {hkind}]",
+                                     dict(case, member=n, slice=[a, b]), {"got": got, "want": want})
+    acc.sample({"collection": impl, "attach": attach, "L": L, "histories": len(hists)}, f"coll-{impl}-{attach}")
+
+
 def shards(tier, seed):
     b = bounds(tier)
     out = []
@@ -373,12 +497,17 @@ def shards(tier, seed):
                 out.append({"part": "seq", "impl": impl, "off": off, "attach": attach, "L": b["L"], "depth": b["depth"], "steps": b["steps"], "fchunk": fc, "fchunks": 8})
     for c in range(4):
         out.append({"part": "aln", "L": b["aln_len"], "chunk": c, "of": 4})
+    for impl in b["impls"]:
+        for attach in ("add_feature", "attached db with a foreign seqid"):
+            out.append({"part": "coll", "impl": impl, "attach": attach, "L": b["coll_len"]})
     return out
 
 
 def run_shard(spec, acc):
     if spec["part"] == "seq":
         explore(spec, acc)
+    elif spec["part"] == "coll":
+        explore_collection(spec, acc)
     else:
         explore_alignment(spec, acc)
 
@@ -387,7 +516,9 @@ def replay(case):
     from vf.kernel.runner import Acc
 
     acc = Acc()
-    if "aln" in case:
+    if "coll" in case:
+        explore_collection({"impl": case["coll"], "L": case["L"], "attach": case["attach"]}, acc)
+    elif "aln" in case:
         rows = case["aln"]
         L = len(rows["s1"])
         nmask = sum(c == "-" for r in rows.values() for c in r)
